@@ -19,6 +19,9 @@ RULE = (
 
 
 def run(rec, hub, tier, seed, shard, nshards, budget):
+    from ..oracles import bystand
+
+    bystand.register(hub, "C16")
     rec.require(dsm.M16, 50)
     n = 210 if tier == "quick" else 1500
     for k in range(n):
@@ -27,8 +30,17 @@ def run(rec, hub, tier, seed, shard, nshards, budget):
         i = k * nshards + shard
         rec.set_case(driver="c16.case", seed=seed, tier=tier, shard=shard, nshards=nshards, idx=i)
         dsm.c16_case(rec, hub, case_nprng(seed, "c16.case", 0, i), tier, i)
+        if k % 5 == 2:
+            rec.set_case(driver="c16.two", seed=seed, tier=tier, shard=shard, nshards=nshards, idx=i)
+            dsm.two_objects_case(rec, hub, case_nprng(seed, "c16.two", 0, i), tier, dsm.M16, "C16")
 
 
 def replay(rec, hub, case):
+    from ..oracles import bystand
+
+    bystand.register(hub, "C16")
     rec.set_case(**case)
+    if case["driver"] == "c16.two":
+        dsm.two_objects_case(rec, hub, case_nprng(case["seed"], "c16.two", 0, case["idx"]), case.get("tier", "quick"), dsm.M16, "C16")
+        return
     dsm.c16_case(rec, hub, case_nprng(case["seed"], "c16.case", 0, case["idx"]), case.get("tier", "quick"), case["idx"])
